@@ -113,7 +113,8 @@ ParseIntContract(ev) ==
         ELSE IF r.k = "ok" /\ r.n > n THEN << << "C10", "consumed count beyond the input" >> >>
         ELSE IF ~PlainIntFormat(f) THEN << >>
         ELSE LET sp == IntParseSpec(T, Radix(f), s, n, ev.partial) IN
-             IF sp.k = "ok" THEN
+             IF sp.k = "uns" THEN << >>
+             ELSE IF sp.k = "ok" THEN
                  IF r.k # "ok" THEN << << "C04", "valid numeral in range rejected" >> >>
                  ELSE IF r.n # sp.n THEN << << "C04", "wrong consumed count" >> >>
                  ELSE IF FromDec(r.v.d) # sp.mag THEN << << "C04", "wrong value" >> >>
@@ -233,8 +234,12 @@ WriteFloatContract(ev) ==
 (***************************************************************************)
 Contract(ev) ==
     CASE ev.op = "parse" /\ IsFloatTy(ev.ty) ->
-             ParseFloatContract(ev)
-             \o (IF "std" \in DOMAIN ev /\ ~ev.partial THEN StdParseFloatDispute(ev) ELSE << >>)
+             LET c == ParseFloatContract(ev) IN
+             IF "std" \notin DOMAIN ev \/ ev.partial THEN c
+             ELSE IF ev.std.k = "ok" /\ ev.res.k = "ok" /\ ev.std.v.bits = ev.res.v.bits /\ ~PFOpts(ev).lossy
+                  THEN \* std returned the very same float: its verdict is the verdict on lexical's result
+                       (IF c = << >> THEN c ELSE c \o << << "SPEC", "Rust std returns the same value the specification rejects" >> >>)
+                  ELSE c \o StdParseFloatDispute(ev)
       [] ev.op = "parse" ->
              ParseIntContract(ev)
              \o (IF "std" \in DOMAIN ev /\ ~ev.partial THEN StdParseIntDispute(ev) ELSE << >>)
